@@ -26,9 +26,29 @@ ANCHORS = [("dateparser.utils", "localize_timezone"), ("dateparser.utils", "appl
 N_CASES = {"quick": 60000, "thorough": 900000}
 LOCAL_TZS = ["America/New_York", "Asia/Kolkata", "Australia/Lord_Howe", "UTC"]
 OFFSET_NAMES = ["+0530", "-0800", "UTC+3", "UTC-09:30", "GMT+2", "+05:45", "UTC+14:00", "-1200", "UTC+08:45", "UTC-03:30"]
-KINDS = ["abs", "abs_strtz", "fmt", "ts", "rel"]
+KINDS = ["abs", "abs_strtz", "fmt", "ts", "rel", "rel_aware", "rel_strtz"]
 WANT_PATH = {"abs": ("absolute-time",), "abs_strtz": ("absolute-time",), "fmt": ("raw-format", "custom-formats"),
-             "ts": ("timestamp",), "rel": ("relative-time",)}
+             "ts": ("timestamp",), "rel": ("relative-time",), "rel_aware": ("relative-time",), "rel_strtz": ("relative-time",)}
+# zones an aware RELATIVE_BASE is given in (fixed offsets incl. zero, pytz zones incl. UTC itself)
+BASE_ZONES = ["utc", "pytz.utc", "+05:30", "-08:00", "+00:00", "Europe/London", "Asia/Tokyo", "America/New_York", "Asia/Kolkata"]
+
+
+def base_tzinfo(name):
+    import pytz
+
+    if name == "utc":
+        return timezone.utc
+    if name == "pytz.utc":
+        return pytz.utc
+    if name[0] in "+-":
+        sign = -1 if name[0] == "-" else 1
+        return timezone(sign * timedelta(hours=int(name[1:3]), minutes=int(name[4:6])))
+    return pytz.timezone(name)
+
+
+def abbreviations():
+    """Abbreviations of the library's table that pytz does not know as a zone name (so the string's reading is the table's)."""
+    return pools()[1]
 
 
 def shards(tier, seed):
@@ -132,8 +152,34 @@ def gen_case(rnd, a_iana=None, b_iana=None):
                     pass
                 break
     c = {"A": A, "B": B, "d": iso(d), "aware": rnd.choice([True, False, None]), "kind": rnd.choice(KINDS)}
-    if c["kind"] == "abs_strtz":
+    if c["kind"] in ("abs_strtz", "rel_strtz"):
         c["str_off"] = rnd.choice(supported_offsets())
+        if rnd.random() < 0.5:
+            # a zone abbreviation instead of a numeric offset; half of the time the abbreviation the TIMEZONE zone itself
+            # uses at that moment, when the library's table lists it (IST for Asia/Kolkata, CST for Asia/Shanghai ...):
+            # the string's zone is what the table says, whatever TIMEZONE calls itself
+            ab = rnd.choice(abbreviations())
+            if rnd.random() < 0.5:
+                import pytz
+
+                try:
+                    own = pytz.timezone(A).localize(d).tzname()
+                    if own in abbreviations():
+                        ab = own
+                except Exception:
+                    pass
+            off = table_offset_of(ab)
+            if off is not None and all(ch.isalpha() and ch.isascii() for ch in ab):
+                c["str_abbr"], c["str_off"] = ab, int(off.total_seconds())
+    if c["kind"] == "rel_aware":
+        c["base_zone"] = rnd.choice(BASE_ZONES)
+        c["rel"] = ["hours", rnd.choice([1, 2, 5])] if rnd.random() < 0.7 else ["minutes", rnd.choice([10, 90])]
+        c["rel_dir"] = rnd.choice(["ago", "in"])
+        if c["B"] is None and c["aware"] is not True:
+            c["aware"] = True      # without TO_TIMEZONE only the instant is determined, so it has to be observable
+    if c["kind"] == "rel_strtz":
+        c["rel"] = ["hours", rnd.choice([1, 2, 5])]
+        c["rel_dir"] = rnd.choice(["ago", "in"])
     if c["kind"] == "rel":
         c["rel"] = rnd.choice([["days", rnd.choice([1, 2, 7, 30])], ["hours", rnd.choice([1, 5, 36])]])
         c["rel_dir"] = rnd.choice(["ago", "in"])
@@ -168,6 +214,23 @@ def expected_candidates(c, local_tz=None):
     for _, ta in a_readings:
         if c["kind"] == "abs_strtz":
             inst = (d - timedelta(seconds=c["str_off"])).replace(tzinfo=UTC)
+        elif c["kind"] == "rel_aware":
+            # an aware reference time is an instant: the phrase moves it, TIMEZONE has nothing to re-interpret
+            bt = base_tzinfo(c["base_zone"])
+            base = localize(bt, d)
+            if base is None:
+                return None
+            n = c["rel"][1] * (-1 if c["rel_dir"] == "ago" else 1)
+            inst = base.astimezone(UTC) + timedelta(**{c["rel"][0]: n})
+            if hasattr(bt, "localize") and inst.astimezone(bt).utcoffset() != base.utcoffset():
+                return None     # a clock change of the base's zone inside the span
+        elif c["kind"] == "rel_strtz":
+            # naive reference time read in TIMEZONE, moved by the phrase; the zone in the phrase only re-expresses it
+            base = localize(ta, d) if A != "local" else d.replace(tzinfo=ta)
+            if base is None:
+                return None
+            n = c["rel"][1] * (-1 if c["rel_dir"] == "ago" else 1)
+            inst = base.astimezone(UTC) + timedelta(**{c["rel"][0]: n})
         elif c["kind"] == "rel":
             base = localize(ta, d) if A != "local" else d.replace(tzinfo=ta)
             if base is None:
@@ -189,11 +252,22 @@ def expected_candidates(c, local_tz=None):
                 return None
             inst = la.astimezone(UTC)
         for _, tb in b_readings:
+            if c["kind"] == "rel_aware" and B is None:
+                tb = base_tzinfo(c["base_zone"])      # no target zone: only the instant is asserted (aware is forced True)
+            if c["kind"] == "rel_strtz" and B is None:
+                tb = timezone(timedelta(seconds=c["str_off"]))
             wall = inst.astimezone(tb).replace(tzinfo=None)
             if hasattr(tb, "localize") and localize(tb, wall) is None:
                 return None  # ambiguous image in B
             out.append((inst, wall))
     return out
+
+
+def zone_suffix(c):
+    if c.get("str_abbr"):
+        return c["str_abbr"]
+    tot = c["str_off"] // 60
+    return "%s%02d:%02d" % ("+" if tot >= 0 else "-", abs(tot) // 60, abs(tot) % 60)
 
 
 def build_call(c):
@@ -210,7 +284,17 @@ def build_call(c):
         s = d.strftime("%Y-%m-%d %H:%M:%S")
     elif k == "abs_strtz":
         tot = c["str_off"] // 60
-        s = d.strftime("%Y-%m-%d %H:%M:%S") + " %s%02d:%02d" % ("+" if tot >= 0 else "-", abs(tot) // 60, abs(tot) % 60)
+        s = d.strftime("%Y-%m-%d %H:%M:%S") + " " + zone_suffix(c)
+        named_zone = True
+    elif k == "rel_aware":
+        n, unit = c["rel"][1], c["rel"][0]
+        s = ("%d %s ago" % (n, unit)) if c["rel_dir"] == "ago" else ("in %d %s" % (n, unit))
+        bt = base_tzinfo(c["base_zone"])
+        st["RELATIVE_BASE"] = bt.localize(d) if hasattr(bt, "localize") else d.replace(tzinfo=bt)
+    elif k == "rel_strtz":
+        n, unit = c["rel"][1], c["rel"][0]
+        s = (("%d %s ago" % (n, unit)) if c["rel_dir"] == "ago" else ("in %d %s" % (n, unit))) + " " + zone_suffix(c)
+        st["RELATIVE_BASE"] = d
         named_zone = True
     elif k == "fmt":
         s = d.strftime("%d/%m/%Y %H-%M-%S")
@@ -309,8 +393,10 @@ def run_shard(ctx, desc):
             for _ in range(desc["n"]):
                 c = gen_case(rnd)
                 c["A"] = "local"
-                if c["kind"] == "abs_strtz":
-                    c["kind"] = "abs"
+                if c["kind"] in ("abs_strtz", "rel_strtz"):
+                    c["kind"] = {"abs_strtz": "abs", "rel_strtz": "rel"}[c["kind"]]
+                    if "rel" in c:
+                        c["rel"], c["rel_dir"] = ["hours", 5], c.get("rel_dir", "ago")
                 check_case(ctx, c, local_tz=desc["tz"])
         ctx.reask()
     finally:
